@@ -74,6 +74,8 @@ func (a tinyOne) Peek(k int) (int, bool) {
 	return v.(int), true
 }
 
+type idealEntry struct{ k, v, sz int }
+
 type wlState struct {
 	name   string
 	n      uint64
@@ -82,6 +84,11 @@ type wlState struct {
 	wide   lruOne
 	shards []lruOne // the unsharded reference: one plain LRU of capacity cap/n+1 per shard
 	seen   map[int]bool
+	// the IDEAL LRU of every shard, kept by the harness from the calls alone (wide cache and plain LRUs share their
+	// building block, so a defect of the LRU itself shows only against this): entries most recently used first
+	ideal [][]idealEntry
+	per   int64
+	tiny  bool
 }
 
 func (r *runner) newWL(f []string) string {
@@ -122,6 +129,7 @@ func (r *runner) newWL(f []string) string {
 			w.shards = append(w.shards, tinyOne{tiny.NewSingleLRUCache(per)})
 		}
 	}
+	w.ideal, w.per, w.tiny = make([][]idealEntry, n), per, f[1] == "tlru"
 	r.mode, r.wl, r.n = "wl", w, n
 	return "ok"
 }
@@ -205,6 +213,61 @@ func (r *runner) wlOp(f []string) string {
 	ref, _ := guardS(func() string {
 		return do(w.shards[w.shardOf(key)]) + " | P=" + w.dump(func(q int) (int, bool) { return w.shards[w.shardOf(q)].Peek(q) })
 	})
+	// the ideal LRU of the key's shard: Set/Get refresh, Peek/Exist do not, the coldest go while the sizes exceed the capacity
+	sh := w.shardOf(key)
+	if sh >= 0 && sh < len(w.ideal) {
+		l := w.ideal[sh]
+		pos := -1
+		for i, e := range l {
+			if e.k == key {
+				pos = i
+			}
+		}
+		without := func() []idealEntry {
+			var o []idealEntry
+			for i, e := range l {
+				if i != pos {
+					o = append(o, e)
+				}
+			}
+			return o
+		}
+		switch f[0] {
+		case "set":
+			size := sz
+			if w.tiny {
+				size = 1
+			}
+			l = append([]idealEntry{{key, v, size}}, without()...)
+			var total int64
+			keep := 0
+			for keep < len(l) && total+int64(l[keep].sz) <= w.per {
+				total += int64(l[keep].sz)
+				keep++
+			}
+			l = l[:keep]
+		case "get":
+			if pos >= 0 {
+				l = append([]idealEntry{l[pos]}, without()...)
+			}
+		case "del":
+			if pos >= 0 {
+				l = without()
+			}
+		}
+		w.ideal[sh] = l
+		want := map[int]int{}
+		for _, sl := range w.ideal {
+			for _, e := range sl {
+				want[e.k] = e.v
+			}
+		}
+		got := w.dump(w.wide.Peek)
+		exp := w.dump(func(q int) (int, bool) { v, ok := want[q]; return v, ok })
+		if got != exp {
+			r.hit("C17:"+w.name+":differs-from-ideal-lru-per-shard", fmt.Sprintf("%s %s on %d shards (xhash=%v, per-shard capacity %d): the wide cache holds %s, ideal LRUs per shard hold %s (order of use of shard %d, most recent first: %v)", f[0], strings.Join(f[1:], " "), w.n, w.xhash, w.per, got, exp, sh, w.ideal[sh]))
+		}
+	}
 	if ref != out {
 		r.hit("C17:"+w.name+":differs-from-unsharded-per-shard", fmt.Sprintf("%s %s on %d shards (xhash=%v): the wide cache answers `%s`, plain LRUs of the per-shard capacity answer `%s` (P = Peek of every key used so far)", f[0], strings.Join(f[1:], " "), w.n, w.xhash, out, ref))
 	}
